@@ -472,11 +472,11 @@ class Model:
                         vals[it.name] = v
                     elif it.kind == 'enum':
                         if not self.enum_valid(it.enum, v):
-                            raise Reject('enum', f'{name}.{it.name}')
+                            self._fault('enum', f'{name}.{it.name}')
                         vals[it.name] = v
                     elif it.kind in ('fixed_scalar', 'fixed_enum'):
                         if v != it.value:
-                            raise Reject('fixed', name)
+                            self._fault('fixed', name)
                     elif it.kind == 'flag':
                         env['flag:' + it.name] = v
                     elif it.kind in ('size', 'count', 'elemsize'):
@@ -490,7 +490,7 @@ class Model:
                         v = self._uint(buf[:n])
                         buf = buf[n:]
                         if seg.inner[0] == 'enum' and not self.enum_valid(seg.inner[1], v):
-                            raise Reject('enum', f'{name}.{seg.name}')
+                            self._fault('enum', f'{name}.{seg.name}')
                         vals[seg.name] = v
                     else:
                         vals[seg.name], buf = self.decode_any(seg.inner[1], buf)
@@ -540,7 +540,7 @@ class Model:
                 v = self._uint(buf[:seg.nbytes])
                 buf = buf[seg.nbytes:]
                 if v != self.checksum(seg.decl, covered):
-                    raise Reject('checksum', f'{name}.{seg.name}')
+                    self._fault('checksum', f'{name}.{seg.name}')
                 vals[seg.name] = v
             else:
                 raise Unsupported(type(seg).__name__)
@@ -564,7 +564,7 @@ class Model:
                 raise Reject('length', f'{name}.{seg.name} element')
             v = self._uint(buf[:n])
             if kind == 'enum' and not self.enum_valid(seg.elem[1], v):
-                raise Reject('enum', f'{name}.{seg.name}')
+                self._fault('enum', f'{name}.{seg.name}')
             return v, buf[n:]
         return self.decode_any(seg.elem[1], buf)
 
@@ -591,10 +591,13 @@ class Model:
                     if len(buf) < total:
                         raise Reject('length', f'{name}.{seg.name}')
                 if es == 0:
-                    raise Reject('array_size', 'element size 0', 'elemsize_zero')
-                if total % es != 0:
-                    raise Reject('array_size', f'{name}.{seg.name}')
-                cnt = total // es
+                    if total != 0:
+                        raise Reject('array_size', 'element size 0', 'elemsize_zero')
+                    cnt = 0
+                else:
+                    if total % es != 0:
+                        raise Reject('array_size', f'{name}.{seg.name}')
+                    cnt = total // es
             if len(buf) < cnt * es:
                 raise Reject('length', f'{name}.{seg.name}')
             cnt, es = _concrete(cnt), _concrete(es)
@@ -659,11 +662,11 @@ class Model:
         for n in ch[1:]:
             for k, v in self.decls[n].constraints:
                 if cur[k] != self.constraint_value(n, k, v):
-                    raise Reject('constraint', f'{n}.{k}')
+                    self._fault('constraint', f'{n}.{k}')
             if 'payload' in cur:
                 sub, r2 = self.decode_fields(n, cur['payload'])
                 if len(r2) != 0:
-                    raise Reject('trailing', n)
+                    self._fault('trailing', n)
                 cur = {k: v for k, v in cur.items() if k != 'payload'}
                 cur.update(sub)
             else:
@@ -674,8 +677,34 @@ class Model:
         """decode_full: the whole of b must be one value of `name`."""
         vals, rest = self.decode_any(name, b)
         if len(rest) != 0:
-            raise Reject('trailing', name)
+            self._fault('trailing', name)
         return vals
+
+    lenient = False
+
+    def _fault(self, fault, detail='', site=''):
+        """faults after which the structure is still known are only recorded in lenient mode"""
+        if self.lenient:
+            self.soft.append(fault)
+            return
+        raise Reject(fault, detail, site)
+
+    def decode_lenient(self, name, b, full=True):
+        """(accepted, value or None, consumed or None, [faults in order])"""
+        self.lenient, self.soft = True, []
+        try:
+            if full:
+                v = self.decode(name, b)
+                used = len(b)
+            else:
+                v, rest = self.decode_any(name, b)
+                used = len(b) - len(rest)
+            faults = list(self.soft)
+            return (not faults, v if not faults else None, used, faults)
+        except Reject as r:
+            return (False, None, None, list(self.soft) + [r.fault])
+        finally:
+            self.lenient = False
 
     # ------------------------------------------------------------------ encode
     def encode_fields(self, name, vals, payload=None):
@@ -879,3 +908,101 @@ def _with_constraints(self, name, vals):
 
 Model.min_len = _min_len
 Model.size_faults = _size_faults
+
+
+def _max_len(self, name, _depth=0):
+    """largest number of octets decode can consume for `name`; None if unbounded/large"""
+    if _depth > 8:
+        return None
+    total = 0
+    for n in self.chain(name):
+        for seg in self.plans[n]:
+            if isinstance(seg, Chunk):
+                total += seg.nbytes
+            elif isinstance(seg, StructSeg):
+                s = self.max_len(seg.decl, _depth + 1)
+                if s is None:
+                    return None
+                total += s
+            elif isinstance(seg, CustomSeg):
+                if seg.nbytes is None:
+                    return None
+                total += seg.nbytes
+            elif isinstance(seg, OptSeg):
+                if seg.inner[0] == 'scalar':
+                    total += seg.inner[1]
+                elif seg.inner[0] == 'enum':
+                    total += self.decls[seg.inner[1]].width // 8
+                else:
+                    s = self.max_len(seg.inner[1], _depth + 1)
+                    if s is None:
+                        return None
+                    total += s
+            elif isinstance(seg, PayloadSeg):
+                if n != self.chain(name)[-1]:
+                    continue     # replaced by the child's fields, bounded by the parent's window
+                if not seg.sized:
+                    return None
+                w = [it.width for s in self.plans[n] if isinstance(s, Chunk) for it in s.items
+                     if it.kind == 'size' and it.target in ('_payload_', '_body_')][0]
+                if w > 6:
+                    return None
+                total += (1 << w) - 1
+            elif isinstance(seg, ArraySeg):
+                if seg.padding is not None:
+                    total += seg.padding
+                    continue
+                es = seg.elem_static
+                if es is None and seg.elem[0] == 'struct':
+                    es = self.max_len(seg.elem[1], _depth + 1)
+                if seg.shape[0] == 'static':
+                    if es is None:
+                        return None
+                    total += es * seg.shape[1]
+                elif seg.shape[0] in ('count', 'size'):
+                    kind = seg.shape[0]
+                    w = [it.width for s in self.plans[n] if isinstance(s, Chunk) for it in s.items
+                         if it.kind == kind and it.target == seg.name][0]
+                    if w > 6:
+                        return None
+                    if kind == 'size':
+                        total += (1 << w) - 1
+                    else:
+                        if es is None:
+                            return None
+                        total += es * ((1 << w) - 1)
+                else:
+                    return None
+            elif isinstance(seg, ChecksumValue):
+                total += seg.nbytes
+    return total
+
+
+def _cost_class(self, name) -> str:
+    """rough cost of symbolically executing the generated Rust decoder/encoder"""
+    heavy = medium = False
+    for t in [name] + self.descendants(name):
+        for n in self.chain(t):
+            for seg in self.plans[n]:
+                if isinstance(seg, ArraySeg):
+                    medium = True
+                    if seg.elem[0] == 'struct' and (seg.elem_static is None or seg.has_elemsize):
+                        heavy = True
+                    if seg.has_elemsize:
+                        heavy = True
+                elif isinstance(seg, PayloadSeg):
+                    medium = True
+                elif isinstance(seg, StructSeg):
+                    c = self.cost_class(seg.decl)
+                    medium = medium or c != 'cheap'
+                    heavy = heavy or c == 'heavy'
+                elif isinstance(seg, OptSeg) and seg.inner[0] == 'struct':
+                    medium = True
+                    heavy = heavy or self.cost_class(seg.inner[1]) == 'heavy'
+    if self.children(name):
+        medium = True
+    return 'heavy' if heavy else 'medium' if medium else 'cheap'
+
+
+Model.max_len = _max_len
+Model.cost_class = _cost_class
